@@ -1,7 +1,7 @@
 """C01 - parsing and rendering are total and terminate (E1: words, lines, edit-1 neighbourhoods, pumping)."""
 import io
 import string
-from mc import core, configs, spaces, trees, inlines, leafspell
+from mc import core, configs, spaces, trees, inlines, leafspell, inlinespell
 
 ID = 'C01'
 TECHNIQUE = ('exhaustive enumeration of all words over 8 cluster alphabets and a 34-line alphabet up to a length bound, '
@@ -69,6 +69,7 @@ def jobs(tier):
     for i in range(len(ROLE_STRINGS)):
         js.append(('roles', i))
     js += leafspell.jobs()
+    js += inlinespell.jobs()
     return js
 
 
@@ -251,6 +252,13 @@ def _run_job(r, job):
                 if ctx is not None:
                     run_text(r, ctx[0], configs.GROUPS_CORE if cx else configs.GROUPS, space='inlines')
         r.sample(dict(space='inlines', container=inlines.CONTAINERS[job[1]][0]), 1)
+    elif kind == 'inlinespell':
+        for case in inlinespell.cases_of_job(job):
+            for ctx in inlinespell.CONTEXTS:
+                x = inlinespell.in_context(case, ctx)
+                if x is not None:
+                    run_text(r, x[0], configs.GROUPS_CORE, space='inlinespell')
+        r.sample(dict(space='inline spellings', family=job[1]), 1)
     elif kind == 'leafspell':
         for case in leafspell.cases_of_job(job):
             for ctx in leafspell.CONTEXTS:
